@@ -38,3 +38,48 @@ def jdefault(o):
     if isinstance(o, (set, frozenset)):
         return sorted(o, key=repr)
     return repr(o)
+
+
+def call_getters(obj, seed=None, names=None, skip=()):
+    """History stream "order of public calls": call a pseudo-random, non-empty selection of the object's public
+    argument-less get_* methods in a pseudo-random order (both a pure function of `seed`), or exactly `names`
+    (replay).  A getter that raises is recorded as "name!Error" and does not stop the sequence.  Returns the list of
+    names in the order called.  The examined call is made AFTERWARDS on the same object and must answer as it does on
+    a fresh object -- every property here is a statement about a function of the input structure."""
+    if names is None:
+        names = plan_getters(obj, seed, skip)
+    called = []
+    for n in names:
+        n = n.split("!")[0]
+        try:
+            getattr(obj, n)()
+            called.append(n)
+        except Exception as e:  # noqa
+            called.append(n + "!" + type(e).__name__)
+    return called
+
+
+def plan_getters(obj, seed, skip=()):
+    """the selection call_getters(obj, seed) makes (names in calling order); obj = instance or class"""
+    import inspect
+    import random
+    cls = obj if isinstance(obj, type) else type(obj)
+    cand = []
+    for n in sorted(dir(cls)):
+        if not n.startswith("get_") or n in skip:
+            continue
+        f = getattr(cls, n, None)
+        if not callable(f):
+            continue
+        try:
+            sig = inspect.signature(f)
+        except (TypeError, ValueError):
+            continue
+        need = [p for p in list(sig.parameters.values())[1:]
+                if p.default is p.empty and p.kind in (p.POSITIONAL_ONLY, p.POSITIONAL_OR_KEYWORD, p.KEYWORD_ONLY)]
+        if need:
+            continue
+        cand.append(n)
+    rng = random.Random(seed)
+    rng.shuffle(cand)
+    return cand[:rng.randint(1, len(cand))] if cand else []
